@@ -36,7 +36,7 @@ METHOD = {"hover": "textDocument/hover", "definition": "textDocument/definition"
 DEVIATIONS = ["UnsavedInIndex", "CloseKeepsUnsaved", "ByteColumns"]
 FENCE0 = 900000
 T_DUE = 3.0        # silence after which a fence is sent to find out whether an output is missing
-T_LONG = 30.0
+T_LONG = 60.0
 
 
 class Interner:
@@ -744,7 +744,12 @@ def run_model(tier):
         designs = [("Lsp_mcfull3", "design, exhaustive without VIEW: 2 documents, 2 texts, every session of 3 messages"),
                    ("Lsp_mcsmall", "design, exhaustive: 2 documents, 3 texts, every disk, sessions of 4 messages, client 2 ahead"),
                    ("Lsp_mc", "design, exhaustive: 3 documents, 4 texts, 7 disks, sessions of 6 messages"),
-                   ("Lsp_mcbig", "design, exhaustive: 3 documents, 4 texts, every acyclic disk, sessions of 6, client 2 ahead")]
+                   ("Lsp_mcbig", "design, exhaustive: 3 documents, 4 texts, every acyclic disk (125 x 2 import tables), sessions of 5 messages")]
+    demo = bool(os.environ.get("C20_DEMO"))
+    if demo:
+        # binding demonstration (self-check only): the design runs are skipped, few sessions
+        C.log("[c20] DEMO mode: design model checking skipped")
+        designs = []
     for cfg, what in designs:
         r = mc(cfg, what)
         if r.violation:
@@ -764,7 +769,7 @@ def run_model(tier):
         cx["dev"] = dev
         cxs.append(cx)
     # sessions
-    per_worker = 25 if tier == "quick" else 500
+    per_worker = 4 if demo else 25 if tier == "quick" else 300
     r = mc("Lsp_sim", "simulation: 3 documents, 6 texts, sessions of 1..30 messages", simulate=per_worker, depth=100)
     if r.violation:
         raise C.ToolError("Lsp.tla with Deviations = {} violates %s in simulation\n%s" % (r.violation, r.errtext[:3000]))
